@@ -118,13 +118,23 @@ func PubKeyToAddr(addressID int32, pubKey []byte) string {
 // blockHeight is used for enable check, pass -1 if there is no block height context
 func CheckAddress(addr string, blockHeight int64) (e error) {
 
-	if value, ok := checkAddressCache.Get(addr); ok {
+	// the answer depends on which drivers are enabled at blockHeight: key the cache by that set
+	// too, and visit the drivers in ascending id order so that the returned error is deterministic
+	ids := sortedDriverIDs()
+	key := addr
+	for _, id := range ids {
+		if isEnable(blockHeight, drivers[id].enableHeight) {
+			key += string(rune('0' + id))
+		}
+	}
+	if value, ok := checkAddressCache.Get(key); ok {
 		if value != nil {
 			return value.(error)
 		}
 		return nil
 	}
-	for _, d := range drivers {
+	for _, id := range ids {
+		d := drivers[id]
 		if !isEnable(blockHeight, d.enableHeight) {
 			continue
 		}
@@ -133,8 +143,18 @@ func CheckAddress(addr string, blockHeight int64) (e error) {
 			break
 		}
 	}
-	checkAddressCache.Add(addr, e)
+	checkAddressCache.Add(key, e)
 	return e
+}
+
+func sortedDriverIDs() []int32 {
+	ids := make([]int32, 0, len(drivers))
+	for id := int32(0); id <= MaxID; id++ {
+		if _, ok := drivers[id]; ok {
+			ids = append(ids, id)
+		}
+	}
+	return ids
 }
 
 // GetAddressType get address type id
